@@ -148,6 +148,12 @@ func c11OnlyMatchedDeleted(r *an.Run) {
 					}
 				}
 			}
+			// … or a linear search of the list of those names itself
+			if c, ok := in.(*ssa.Call); ok && an.IsCallTo(c, "slices.Contains") && len(c.Call.Args) == 2 && an.ShortType(c.Call.Args[0].Type()) == "[]string" {
+				if p, isParam := an.Unwrap(c.Call.Args[0]).(*ssa.Parameter); isParam && p.Parent() == anchor || derivesFromAcrossIn(anchor, c.Call.Args[0], paramAt(anchor, 2)) {
+					replaced = c
+				}
+			}
 		}
 	}
 	if r.Check(usesCall != nil && replaced != nil, short(f)+"|condition-atoms", del.Pos(), "the deletion is decided by 'replaced by an added import' and 'name still used'") {
